@@ -14,6 +14,7 @@ const (
 	keyBlockContext = "bc"
 	keyBlockAppHash = "ah"
 	keyRewardHash   = "rh"
+	keyLastVals     = "lv"
 )
 
 type MetaDB struct {
@@ -84,6 +85,14 @@ func (stdb *MetaDB) LastRewardHash() []byte {
 
 func (stdb *MetaDB) PutLastRewardHash(v []byte) error {
 	return stdb.put(keyRewardHash, v)
+}
+
+func (stdb *MetaDB) LastValidators() []byte {
+	return stdb.get(keyLastVals)
+}
+
+func (stdb *MetaDB) PutLastValidators(v []byte) error {
+	return stdb.put(keyLastVals, v)
 }
 
 func (stdb *MetaDB) LastBlockContext() *BlockContext {
